@@ -7,7 +7,17 @@ from pyvc.bounded import Harness, Failure
 from spec import pddl_sem as PS, semantics as SEM, gen as G, repo_api as RA, sexp as SX, views as V
 from contracts.c01 import _norm_domain
 
-CONTRACTS = {}
+_FN = ("ref", "PDDLFunction")
+CONTRACTS = {
+    # the copy stored into a successor state is a fresh object with the same value: later writes to the operator's own
+    # fluent object cannot reach it (separation), and nothing that existed before the call is written (strict frame)
+    "models.pddl_function:PDDLFunction.copy": dict(
+        prop="C07", params={"self": _FN}, returns=_FN,
+        ensures=["fresh(result)", "result != self", "result.name == self.name", "result.stored_value == self.stored_value",
+                 "result.signature == self.signature", "result.repeating_variables == self.repeating_variables",
+                 "self.stored_value == old(self.stored_value)"],
+        raises={}, modifies=[]),
+}
 LEVEL = "other"
 EXPLANATION = ("bounded stand-in: seeded random histories of API calls (ground, applicability, apply with each flag combination, re-apply an "
                "operator object to earlier and later states, print, export, serialize, copy, parse another domain, combine domains) on the "
@@ -21,13 +31,19 @@ ASSUMPTIONS = ["bounded: histories of 12 calls; 150 (quick) / 1500 (thorough) se
 RICH = [("mv", "?x - a ?y - a", "(and (p ?x) (not (p ?y)) (forall (?z - a) (or (not (r ?z ?x)) (q ?z))))", "(and (not (p ?x)) (p ?y) (increase (c) 1) (forall (?z - a) (when (and (q ?z)) (and (r ?x ?z) (increase (f ?z) (c))))))"),
         ("mk", "?x - a", "(and (or (not (q ?x)) (>= (f ?x) 1)))", "(and (q ?x) (when (and (p ?x)) (g)) (increase (f ?x) 2))"),
         ("cl", "", "(and (g))", "(and (not (g)) (forall (?z - a) (when (and (q ?z)) (not (q ?z)))) (assign (c) 0))"),
-        ("dd", "?x - a ?y - a", "(and (>= (c) 1))", "(and (increase (d ?x ?y) 1) (decrease (c) 1))")]
+        ("dd", "?x - a ?y - a", "(and (>= (c) 1))", "(and (increase (d ?x ?y) 1) (decrease (c) 1))"),
+        # parameters of a strict subtype of the predicates' declared types; a fluent (f ?w) that the problem may not define
+        ("sb", "?w - b", "(and (s ?w) (or (p ?w) (not (q ?w))))", "(and (q ?w) (not (p ?w)) (increase (f ?w) 3))")]
+SPARSE_INIT = "(define (problem scen) (:domain gen) (:objects o1 - a o2 - b) (:init (p o1) (s o2) (r o2 o1) (= (c) 1)) (:goal (and (q o2))))"
 
 
 def digest_domain(dom):
     from pddl_plus_parser.exporters import DomainExporter
     v = V.v_domain(dom)
-    return repr((_norm_domain(v), [(n, a["params"]) for n, a in v["actions"].items()], [(n, list(p.signature)) for n, p in dom.predicates.items()]))
+    return repr((_norm_domain(v), [(n, a["params"]) for n, a in v["actions"].items()],
+                 [(n, [(k, t.name) for k, t in p.signature.items()]) for n, p in dom.predicates.items()],
+                 [(n, [(k, t.name) for k, t in f.signature.items()]) for n, f in dom.functions.items()],
+                 sorted(SX.lex(DomainExporter().extract_domain(dom)))))
 
 
 def run_history(dom, prob, seed, n_calls=12, log=None):
@@ -43,7 +59,7 @@ def run_history(dom, prob, seed, n_calls=12, log=None):
     ops = []
     results = []
     fails = []
-    calls = [c for c in G.scenario_calls()]
+    calls = [c for c in G.scenario_calls()] + [("sb", ("o2",))]
     for step in range(n_calls):
         kind = rnd.choice(["new-op", "applicable", "apply", "apply", "reapply", "print", "export", "serialize", "copy", "parse-other", "typed"])
         desc = kind
@@ -138,7 +154,9 @@ class Histories(Harness):
     def check(self, inp):
         self.cases += 1
         dom = RA.parse_domain_text(G.domain_text(RICH))
-        prob = RA.parse_problem_text(G.scenario_problem_text(("(q o2)", "(r o2 o1)")), dom)
+        # odd seeds: a problem that leaves most fluents undefined, so that effects create them in successor states
+        ptxt = SPARSE_INIT if inp["seed"] % 2 else G.scenario_problem_text(("(q o2)", "(r o2 o1)", "(s o2)"))
+        prob = RA.parse_problem_text(ptxt, dom)
         log = []
         fails, _ = run_history(dom, prob, inp["seed"], log=log)
         return [Failure(clause=f[1], expected=f[2], observed=f[3], input={**inp, "step": f[0], "history": log[:f[0] + 1]}) for f in fails[:3]]
